@@ -6,7 +6,7 @@ h, what, by = sys.argv[1:4]
 s = open('/verif/DESIGN.md').read()
 marker = "\n---------------------------------------------------------------------------\n\n## Appendix A"
 j = s.index(marker)
-i = s.rindex("### 12.1", 0, j)
+i = s.rindex("Genuine defects found and repaired in this session", 0, j)
 # the table ends at the first blank line after its header
 t = s.index("|---|---|---|\n", i)
 k = s.index("\n\n", t)
